@@ -101,7 +101,9 @@ def check(ctx):
                                       key=proto + ":missing")
                         continue
                     want = {"iplen": c["iplen"], "ihl": 20, "proto": 17, "src": c["src"][-4:], "dst": [127, 0, 0, 1], "sport": SPORT[proto],
-                            "dport": port, "udplen": c["udplen"], "payload": c["payload"], "pkts": 1}
+                            "dport": port, "udplen": c["udplen"], "payload": c["payload"], "pkts": 1,
+                            # ... and it is a UDP datagram the target's own socket accepts, from the exporter, with the same octets
+                            "udp_got": True, "udp_src": c["src"][-4:], "udp_same": True}
                     bad = [k for k in want if g.get(k) != want[k]]
                     if bad:
                         ctx.violation(where + ": mirrored packet differs in %s (model %s, wire %s)"
